@@ -123,7 +123,13 @@ let mgr = function
         | _, [] -> false
         | x :: a', y :: b' -> if x = y then sub a' b' else if y < x then sub a b' else false in
       if not (sub del sent_sorted) then add (Propfail ("tcpcl.deliver.not-exactly-once", name ^ ": a bundle was handed up twice or was never sent"))
-      else if all_ok && del <> sent_sorted then () (* reported above as ok-but-not-delivered *) in
+      else if all_ok && del <> sent_sorted then () (* reported above as ok-but-not-delivered *);
+      (* the session of a mgr case is healthy (no scripted fault): every concurrent Send must succeed
+         and every bundle must be handed up *)
+      if not all_ok then
+        add (Propfail ("tcpcl.concurrent.send-failed", name ^ ": a Send on a healthy session with concurrent senders returned an error"));
+      if not (sub sent_sorted del) then
+        add (Propfail ("tcpcl.concurrent.not-delivered", name ^ ": a bundle sent on a healthy session with concurrent senders was never handed up")) in
     dir "A->B" ma tob delb;
     dir "B->A" mb toa dela;
     if s_int errs <> 0 then add (Mismatch "a TransferManager reported an error on a healthy session");
